@@ -248,6 +248,14 @@ def main():
         impl[name] = run_parallel(impl_cmd(d), lines, 8)
     model = run_parallel(model_cmd(), lines, 16) if model_bin_ok else ['model-unavailable'] * len(lines)
 
+    # machinery errors: an op the harness or the driver does not know / cannot parse is never a pass
+    MACH = ('unknown-op', 'bad-args', 'unsupported-width', 'model-unavailable', 'empty', 'crash-model')
+    mach = [(l, impl['release'][i], model[i]) for i, l in enumerate(lines)
+            if impl['release'][i] in MACH or impl['dbgchk'][i] in MACH or model[i].split(' ;; ')[0] in MACH]
+    if mach and model_bin_ok:
+        print(f'ERROR machinery: {len(mach)} line(s) not executable by harness or model, e.g. {mach[:3]}')
+        sys.exit(3)
+
     findings = load_findings()
     known_hits = {}
     viol = []       # public-op disagreements (impl != model)
